@@ -137,7 +137,8 @@ fn assoc_find(
     alist: &TulispObject,
     mut testfn: impl FnMut(&TulispObject, &TulispObject) -> Result<bool, Error>,
 ) -> Result<TulispObject, Error> {
-    if alist.caar_and_then(|caar| testfn(&caar, key))? {
+    // Elements that are not cons cells are ignored.
+    if alist.car()?.consp() && alist.caar_and_then(|caar| testfn(&caar, key))? {
         return alist.car();
     }
     if alist.consp() {
